@@ -495,9 +495,12 @@ fn c10_header_codec() {
 /// Pre-state satisfying invariant I (DESIGN.md section 4): primary slot valid; secondary either
 /// carries a non-matching checksum (arbitrary bytes) or is valid with id <= primary id (and
 /// equal content when the ids are equal); recovery_required set.
-fn any_i_state(p: usize) -> (DatabaseHeader, TransactionHeader) {
+fn any_i_state(p: usize, fixed_sec_corrupt: Option<bool>) -> (DatabaseHeader, TransactionHeader) {
     let prim = any_valid_slot();
-    let sec_corrupt: bool = kani::any();
+    let sec_corrupt: bool = match fixed_sec_corrupt {
+        Some(b) => b,
+        None => kani::any(),
+    };
     let sec = if sec_corrupt {
         let mut raw: [u8; TRANSACTION_SIZE] = kani::any();
         raw[0] = FILE_FORMAT_VERSION3;
@@ -536,8 +539,8 @@ fn any_i_state(p: usize) -> (DatabaseHeader, TransactionHeader) {
 ///   1 = after the first header write           4 = after the final flush (commit returned)
 ///   2 = after the 2PC flush (2PC only)
 /// `gran` bytes are torn together (1 = byte granular).
-fn crash_step(p: usize, gran: usize, fixed_cut: Option<u8>, fixed_2pc: Option<bool>) {
-    let (h0, old) = any_i_state(p);
+fn crash_step(p: usize, gran: usize, fixed_cut: Option<u8>, fixed_2pc: Option<bool>, fixed_sec_corrupt: Option<bool>) {
+    let (h0, old) = any_i_state(p, fixed_sec_corrupt);
     let d0 = h0.to_bytes(true);
     // A-TORN part 1: a corrupt secondary in the pre-state does not carry a matching checksum
     if let Some(raw) = h0.transaction_slots[p ^ 1].corrupt_bytes {
@@ -663,17 +666,20 @@ fn crash_step(p: usize, gran: usize, fixed_cut: Option<u8>, fixed_2pc: Option<bo
 
 macro_rules! crash_harness {
     ($name:ident, $p:expr, $gran:expr, $cut:expr, $tp:expr, $unwind:literal) => {
+        crash_harness!($name, $p, $gran, $cut, $tp, None, $unwind);
+    };
+    ($name:ident, $p:expr, $gran:expr, $cut:expr, $tp:expr, $sec:expr, $unwind:literal) => {
         #[kani::proof]
         #[kani::unwind($unwind)]
         #[kani::stub(crate::tree_store::page_store::page_manager::xxh3_checksum, uf_checksum)]
         #[kani::stub(alloc::fmt::format, no_format)]
         fn $name() {
-            crash_step($p, $gran, $cut, $tp);
+            crash_step($p, $gran, $cut, $tp, $sec);
         }
     };
 }
 
-// @harness props=C01 tier=quick timeout=2400 mem=24 stubbing=1 replay=scenario:crash optcover=survived|kept|other|falls
+// @harness props=C01 tier=quick timeout=2400 mem=24 rss=11 stubbing=1 replay=scenario:crash optcover=survived|kept|other|falls
 // @desc one durable commit from any pre-state satisfying invariant I, crashed after the second header write and before the final flush returned (cut 3: in 1PC every 16-byte word of the slot and the god byte independently persisted or not - this includes "nothing persisted", cut 1 and "everything persisted", i.e. the image once commit returned; in 2PC the slot is durable and the god byte persisted or not) in the named mode (1pc/2pc) and primary index (p0/p1), with the god byte and each 16-byte word of the overwritten slot independently persisted or not: the real from_bytes + finalize return Ok; the slot they select is the old commit or the new one, whole (id, data root, system root); it is the new one whenever commit had returned; when the new slot is selected but its pages are not durable the 2PC flag is clear and the other slot is the old commit with a matching checksum; recovery_required stays set
 // @functions DatabaseHeader::{write_secondary_slot,swap_primary_slot,to_bytes,primary_slot,secondary_slot}, TransactionHeader::{to_bytes,from_bytes}, UnrepairedDatabaseHeader::{from_bytes,recovery_required,finalize,select_primary_slot,layout_from_file_len}, DatabaseLayout::recalculate
 // @bound one commit step; geometry 512/0/16, one region; torn region = god byte + the 128 bytes of the overwritten slot in 16-byte words; ids, roots, pre-state flags, pre-state secondary (valid or arbitrary corrupt bytes) symbolic; cut, commit mode and primary index fixed per harness (all combinations are registered)
@@ -681,6 +687,15 @@ macro_rules! crash_harness {
 // @assumes A-TORN: a slot image whose checksummed part is not byte-identical to one really written does not carry a matching checksum; event order of commit() as proved by c01_commit_events
 crash_harness!(c01_crash_p0_1pc_cut3, 0, 16, Some(3), Some(false), 18);
 crash_harness!(c01_crash_p0_2pc_cut3, 0, 16, Some(3), Some(true), 18);
+
+// the same two queries with the primary in slot 1 (620-830 s each; the quick tier has to fit in
+// 900 s wall, so they run in the thorough tier)
+// @harness props=C01 tier=thorough timeout=2400 mem=24 rss=11 stubbing=1 replay=scenario:crash optcover=survived|kept|other|falls
+// @desc one durable commit from any pre-state satisfying invariant I, crashed after the second header write and before the final flush returned (cut 3: in 1PC every 16-byte word of the slot and the god byte independently persisted or not - this includes "nothing persisted", cut 1 and "everything persisted", i.e. the image once commit returned; in 2PC the slot is durable and the god byte persisted or not) in the named mode (1pc/2pc) and primary index (p0/p1), with the god byte and each 16-byte word of the overwritten slot independently persisted or not: the real from_bytes + finalize return Ok; the slot they select is the old commit or the new one, whole (id, data root, system root); it is the new one whenever commit had returned; when the new slot is selected but its pages are not durable the 2PC flag is clear and the other slot is the old commit with a matching checksum; recovery_required stays set
+// @functions DatabaseHeader::{write_secondary_slot,swap_primary_slot,to_bytes,primary_slot,secondary_slot}, TransactionHeader::{to_bytes,from_bytes}, UnrepairedDatabaseHeader::{from_bytes,recovery_required,finalize,select_primary_slot,layout_from_file_len}, DatabaseLayout::recalculate
+// @bound one commit step; geometry 512/0/16, one region; torn region = god byte + the 128 bytes of the overwritten slot in 16-byte words; ids, roots, pre-state flags, pre-state secondary (valid or arbitrary corrupt bytes) symbolic; cut, commit mode and primary index fixed per harness (all combinations are registered)
+// @stubs xxh3_checksum -> injective uninterpreted function; alloc::fmt::format -> empty string
+// @assumes A-TORN: a slot image whose checksummed part is not byte-identical to one really written does not carry a matching checksum; event order of commit() as proved by c01_commit_events
 crash_harness!(c01_crash_p1_1pc_cut3, 1, 16, Some(3), Some(false), 18);
 crash_harness!(c01_crash_p1_2pc_cut3, 1, 16, Some(3), Some(true), 18);
 
@@ -707,7 +722,7 @@ crash_harness!(c01_crash_recover_p1_w16, 1, 16, None, None, 18);
 crash_harness!(c01_crash_recover_p0_bytes, 0, 1, None, None, 130);
 
 // negative twin: drop the "commit returned" premise - claims the new commit is always recovered
-// @harness props=C01 tier=quick timeout=2400 mem=24 stubbing=1 expect=fail replay=scenario:crash
+// @harness props=C01 tier=quick timeout=2300 mem=24 rss=8 stubbing=1 expect=fail replay=scenario:crash
 // @desc negative twin of c01_crash_recover: asserts that the new commit is recovered at every cut, which must fail (reachability witness for the crash model)
 // @functions as c01_crash_recover_p0_w16
 // @bound as c01_crash_recover_p0_w16
@@ -717,7 +732,7 @@ crash_harness!(c01_crash_recover_p0_bytes, 0, 1, None, None, 130);
 #[kani::stub(crate::tree_store::page_store::page_manager::xxh3_checksum, uf_checksum)]
 #[kani::stub(alloc::fmt::format, no_format)]
 fn c01_twin_crash_must_fail() {
-    let (h0, old) = any_i_state(0);
+    let (h0, old) = any_i_state(0, None);
     let new_id = TransactionId::new(kani::any());
     kani::assume(new_id > old.transaction_id);
     let mut h1 = h0.clone();
